@@ -4,6 +4,7 @@ import (
 	"bytes"
 	"fmt"
 	"go/format"
+	"go/token"
 	"io"
 	"io/ioutil"
 	"os"
@@ -130,6 +131,10 @@ func generateTemplate(description string) (string, []byte, error) {
 	}
 
 	pkgname := strings.ToLower(strings.Replace(strings.Replace(midl.Name, ".", "", -1), "-", "", -1))
+	// A Go keyword cannot name a package
+	if token.IsKeyword(pkgname) {
+		pkgname += "_"
+	}
 
 	// An error without parameters is an error with an empty parameter list
 	for _, e := range midl.Errors {
